@@ -40,10 +40,25 @@ CLASSES = {
     'rigid.Swap': ('box', ['monoidal.Swap', 'rigid.Box']),
     'rigid.Cup': ('box', ['rigid.Box']),
     'rigid.Cap': ('box', ['rigid.Box']),
+    'biclosed.Ty': ('ty', ['monoidal.Ty']),
+    'biclosed.Over': ('ty', ['biclosed.Ty']),
+    'biclosed.Under': ('ty', ['biclosed.Ty']),
+    'biclosed.Diagram': ('diagram', ['monoidal.Diagram']),
+    'biclosed.Id': ('diagram', ['monoidal.Id', 'biclosed.Diagram']),
+    'biclosed.Box': ('box', ['monoidal.Box', 'biclosed.Diagram']),
+    'biclosed.Curry': ('box', ['biclosed.Box']),
+    'biclosed.FA': ('box', ['biclosed.Box']),
+    'biclosed.BA': ('box', ['biclosed.Box']),
+    'biclosed.FC': ('box', ['biclosed.Box']),
+    'biclosed.BC': ('box', ['biclosed.Box']),
+    'biclosed.FX': ('box', ['biclosed.Box']),
+    'biclosed.BX': ('box', ['biclosed.Box']),
 }
 
 BOX_KIND_OF_CLASS = {'monoidal.Swap': 'Swap', 'rigid.Swap': 'Swap', 'rigid.Cup': 'Cup', 'rigid.Cap': 'Cap',
-                     'cat.Sum': 'Sum', 'monoidal.Sum': 'Sum', 'cat.Bubble': 'Bubble', 'monoidal.Bubble': 'Bubble'}
+                     'cat.Sum': 'Sum', 'monoidal.Sum': 'Sum', 'cat.Bubble': 'Bubble', 'monoidal.Bubble': 'Bubble',
+                     'biclosed.FA': 'FA', 'biclosed.BA': 'BA', 'biclosed.FC': 'FC', 'biclosed.BC': 'BC',
+                     'biclosed.FX': 'FX', 'biclosed.BX': 'BX', 'biclosed.Curry': 'Curry'}
 
 # names visible in each module (the module's own imports and definitions)
 MODULE_NAMES = {
@@ -55,6 +70,9 @@ MODULE_NAMES = {
     'rewriting': {},
     'rigid': {'Ob': 'rigid.Ob', 'Ty': 'rigid.Ty', 'PRO': 'rigid.PRO', 'Diagram': 'rigid.Diagram',
               'Id': 'rigid.Id', 'Box': 'rigid.Box', 'Swap': 'rigid.Swap', 'Cup': 'rigid.Cup', 'Cap': 'rigid.Cap'},
+    'biclosed': {'Ty': 'biclosed.Ty', 'Over': 'biclosed.Over', 'Under': 'biclosed.Under', 'Diagram': 'biclosed.Diagram',
+                 'Id': 'biclosed.Id', 'Box': 'biclosed.Box', 'Curry': 'biclosed.Curry', 'FA': 'biclosed.FA',
+                 'BA': 'biclosed.BA', 'FC': 'biclosed.FC', 'BC': 'biclosed.BC', 'FX': 'biclosed.FX', 'BX': 'biclosed.BX'},
 }
 MODULES = {'cat', 'monoidal', 'messages', 'drawing', 'rewriting', 'rigid', 'tensor'}
 
@@ -312,6 +330,8 @@ class World:
                 return getattr(obj, name.lstrip('_'))
             return VMethod(obj, name)
         if isinstance(obj, VBox):
+            if name in obj.extra:
+                return obj.extra[name]
             if name in ('dom', '_dom'):
                 return VTy(T.bdom(obj.t))
             if name in ('cod', '_cod'):
@@ -339,7 +359,12 @@ class World:
             if name == 'objects' or name == '_objects':
                 return self.as_sequence(interp, obj)
             if name in ('l', 'r'):
-                return VTy(self.ty_adjoint(interp, obj.t, name))
+                return VTy(self.ty_adjoint(interp, obj.t, name), cls=obj.cls)
+            if name in ('left', 'right'):
+                # biclosed slash types carry their two sides; every other type has None there
+                if ex.branch(z3.Or(T.ty_over(obj.t), T.ty_under(obj.t))):
+                    return VTy((T.ty_sl if name == 'left' else T.ty_sr)(obj.t))
+                return NONE
             return VMethod(obj, name)
         if isinstance(obj, VSlice):
             if name in ('start', 'stop', 'step'):
@@ -367,7 +392,7 @@ class World:
             if name == 'ar_factory':
                 return VClass(obj.ar_factory)
             if name == 'ob_factory':
-                return VClass('monoidal.Ty')
+                return VClass('rigid.Ty' if obj.ar_factory == 'rigid.Diagram' else 'monoidal.Ty')
             return VMethod(obj, name)
         if isinstance(obj, (VList, VTuple, VMethod, VOpaque, VInt, VStr)):
             return VMethod(obj, name)
@@ -455,8 +480,25 @@ class World:
             ex.assume(whole == T.ty_concat(*pieces))
         return whole
 
+    def ty_slash(self, interp, a, b, which):
+        """a << b ('over') / a >> b ('under').  On rigid types (images of a functor into rigid.Ty) these are
+        a @ b.l / a.r @ b (rigid.Ty.__lshift__ / __rshift__); on biclosed types they build the one-object slash type"""
+        ex = interp.ex
+        if a.cls == 'rigid' or b.cls == 'rigid':
+            if which == 'over':
+                return VTy(T.ty_concat(a.t, self.ty_adjoint(interp, b.t, 'l')), cls='rigid')
+            return VTy(T.ty_concat(self.ty_adjoint(interp, a.t, 'r'), b.t), cls='rigid')
+        t = (T.mk_over if which == 'over' else T.mk_under)(a.t, b.t)
+        ex.assume(z3.Length(t) == 1)
+        ex.assume(T.ty_over(t) == z3.BoolVal(which == 'over'))
+        ex.assume(T.ty_under(t) == z3.BoolVal(which == 'under'))
+        ex.assume(T.ty_sl(t) == a.t)
+        ex.assume(T.ty_sr(t) == b.t)
+        return VTy(t)
+
     def functor_ty(self, interp, F, t):
-        """F(t) for a type t: FT(t), with the homomorphism instance for the concatenation t is written as"""
+        """F(t) for a type t: FT(t), with the homomorphism instance for the concatenation t is written as; for a
+        functor on biclosed types also F(a << b) = F(a) << F(b), F(a >> b) = F(a) >> F(b) on the atomic parts"""
         ex = interp.ex
         parts = T._seq_parts(t)
         if not parts:
@@ -465,12 +507,29 @@ class World:
         whole = F.FT(t)
         if len(parts) > 1:
             ex.assume(whole == T.ty_concat(*[F.FT(p) for p in parts]))
+        if getattr(F, 'slash', False):
+            for p_ in parts:
+                key = ('slash', F.name, p_.sexpr())
+                if key in F.images:
+                    continue
+                F.images[key] = True
+                l_, r_ = F.FT(T.ty_sl(p_)), F.FT(T.ty_sr(p_))
+                ex.assume(z3.Implies(T.ty_over(p_), F.FT(p_) == T.ty_concat(l_, self.ty_adjoint(interp, r_, 'l'))))
+                ex.assume(z3.Implies(T.ty_under(p_), F.FT(p_) == T.ty_concat(self.ty_adjoint(interp, l_, 'r'), r_)))
         return whole
 
     def functor_call(self, interp, F, arg):
         ex = interp.ex
         if isinstance(arg, VTy):
-            return VTy(self.functor_ty(interp, F, arg.t))
+            return VTy(self.functor_ty(interp, F, arg.t), cls='rigid' if F.ar_factory == 'rigid.Diagram' else None)
+        if isinstance(arg, VDiagram):
+            # the image of a sub-diagram (induction hypothesis of the functor contract): well-formed, F(dom) -> F(cod)
+            key = ('diagram', id(arg))
+            if key not in F.images:
+                F.images[key] = ex.sym_diagram(T.fresh_name(F.name + '.dimg'), wf=True,
+                                               dom=self.functor_ty(interp, F, arg.dom.t),
+                                               cod=self.functor_ty(interp, F, arg.cod.t), global_inst=True)
+            return F.images[key]
         if isinstance(arg, VBox):
             key = arg.t.sexpr()
             if key not in F.images:
@@ -552,6 +611,10 @@ class World:
         ('rigid.Diagram', 'caps'): 'rigid.caps',
         ('rigid.Id', 'id'): 'monoidal.Id.__init__',
         ('cat.Arrow', 'id'): 'cat.Id.__init__',
+        ('rigid.Diagram', 'fa'): 'rigid.Diagram.fa', ('rigid.Diagram', 'ba'): 'rigid.Diagram.ba',
+        ('rigid.Diagram', 'fc'): 'rigid.Diagram.fc', ('rigid.Diagram', 'bc'): 'rigid.Diagram.bc',
+        ('rigid.Diagram', 'fx'): 'rigid.Diagram.fx', ('rigid.Diagram', 'bx'): 'rigid.Diagram.bx',
+        ('rigid.Diagram', 'curry'): 'rigid.Diagram.curry',
     }
 
     def call_method(self, interp, recv, name, args, kwargs):
@@ -663,6 +726,10 @@ SUPER = {
     ('monoidal.Layer', '__init__'): 'cat.Box.__init__',
     ('monoidal.Diagram', 'then'): 'cat.Arrow.then',
     ('monoidal.Layer', '__getitem__'): 'cat.Box.__getitem__',
+    ('biclosed.FA', '__init__'): 'monoidal.Box.__init__', ('biclosed.BA', '__init__'): 'monoidal.Box.__init__',
+    ('biclosed.FC', '__init__'): 'monoidal.Box.__init__', ('biclosed.BC', '__init__'): 'monoidal.Box.__init__',
+    ('biclosed.FX', '__init__'): 'monoidal.Box.__init__', ('biclosed.BX', '__init__'): 'monoidal.Box.__init__',
+    ('biclosed.Curry', '__init__'): 'monoidal.Box.__init__',
 }
 
 
@@ -715,6 +782,10 @@ def _isinstance1(interp, v, nm):
     if kind is None:
         raise Unsupported('isinstance against unknown class ' + nm)
     if isinstance(v, VTy):
+        if nm == 'biclosed.Over':
+            return T.ty_over(v.t)
+        if nm == 'biclosed.Under':
+            return T.ty_under(v.t)
         return z3.BoolVal(kind in ('ty', 'ob'))
     if isinstance(v, VOb):
         return z3.BoolVal(kind == 'ob')
@@ -835,7 +906,7 @@ def _reversed(interp, lst):
 
 
 BUILTINS = {
-    'len': _len, 'range': _range, 'isinstance': _isinstance, 'zip': _zip, 'enumerate': _enumerate,
+    'len': _len, 'range': _range, 'isinstance': _isinstance, 'getattr': lambda interp, o, n, *d: interp.world.getattr(interp, o, n.s), 'zip': _zip, 'enumerate': _enumerate,
     'list_index': _list_index, 'all': _all_any(True), 'any': _all_any(False), 'getattr': _getattr,
     'min': _min_max(True), 'max': _min_max(False), 'sum': _sum, 'reversed': _reversed,
     'hasattr': lambda interp, obj, name: VBool(False),
